@@ -146,6 +146,9 @@ structure DState where
   nSnapshots : Nat := 0
   nRecovered : Nat := 0
   nTolChecked : Nat := 0
+  nDefChecked : Nat := 0
+  /-- the last `dist` records (metric name, a, b, built, normalised): symmetry is checked against them -/
+  lastDist : List (String × List Nat × List Nat × Nat × Nat) := []
   caseBuilds : Nat := 0
   caseSplits : Nat := 0
   caseQueries : Nat := 0
@@ -420,6 +423,8 @@ def looseBuildCheck (d : DState) (c : Cfg) (o : BuildOpts) (pre : Store) (post :
   | _ => d := d.prop "C06" s!"no metadata after a successful build of index {c.index}"
   return d
 
+def specGet (d : DState) (index id : Nat) : Option (List Nat) := (d.spec.find? (·.1 == (index, id))).map (·.2)
+
 def hasNaNHeader : Val → Bool
   | .leaf h _ => h.any F32.isNaN
   | _ => false
@@ -443,6 +448,15 @@ def handleDump (d : DState) : DState := Id.run do
     let m := ((d.info k.index).map (·.metric)).getD .euclidean
     if !(hasNaNHeader v) && encodeVal m v != vb then
       d := d.prop "C16" s!"value under {toHex kb} re-encodes differently: {toHex (encodeVal m v)} vs {toHex vb}"
+    -- the stored vector of an item written in this trace has the length the reference layout gives for the
+    -- vector as written: `len` binary32 components, or ⌈len/64⌉ words for the quantised codec
+    if k.mode == modeItem then
+      match v, specGet d k.index k.item with
+      | .leaf _ vec, some written =>
+        let expect := if m.isBq then (written.length + quantizedWordBits - 1) / quantizedWordBits else written.length
+        if vec.length != expect then
+          d := d.prop "C16" s!"item {k.item} of index {k.index} was written with {written.length} components: the reference layout stores {expect} {if m.isBq then "words" else "components"}, the database holds {vec.length}"
+      | _, _ => pure ()
   if d.expectRecovered then
     d := { d with expectRecovered := false }
     let inflight := d.committing && (match d.txn with | some t => storeEq t impl | none => false)
@@ -486,7 +500,6 @@ def handleDump (d : DState) : DState := Id.run do
 
 /-! ### the independent item-store / staleness specification (C05, C06) -/
 
-def specGet (d : DState) (index id : Nat) : Option (List Nat) := (d.spec.find? (·.1 == (index, id))).map (·.2)
 def specSet (d : DState) (index id : Nat) (v : List Nat) : DState :=
   { d with spec := ((index, id), v) :: d.spec.filter (·.1 != (index, id)) }
 def specDel (d : DState) (index id : Nat) : DState := { d with spec := d.spec.filter (·.1 != (index, id)) }
@@ -909,6 +922,78 @@ def withinTolerance (n : Nat) (exact absSum : Int) (impl : Nat) : Bool :=
     let tol := (absSum * (n + 2)) / (2 : Int) ^ 23 + (n + 2) * (2 : Int) ^ 151
     (got - exact).natAbs ≤ tol.natAbs
 
+/-- value · 2^150 of a finite binary32 -/
+def scaled150 (v : Int × Int) : Int := v.1 * (2 : Int) ^ ((v.2 + 150).toNat)
+
+/-- **the metric's definition, evaluated exactly** (C11 / C12): is the reported distance `rep` of the vectors
+`a`, `b` what the definition gives, within the rounding error of single-precision summation? `none` = not
+judged (non-finite operands or result, or magnitudes where products under/overflow); `some msg` = it is not.
+Everything is integer arithmetic on exact values scaled by powers of two; the bounds are twice the standard
+`γ_n` bounds, so a correct implementation (any summation order, with or without FMA) never exceeds them. -/
+def definitionOracle (m : Metric) (a b : List Nat) (rep : Nat) : Option (Option String) :=
+  let n := a.length
+  if m.isBq then
+    -- C12: 4h/d, 2h/d, h/D64 with h the number of differing signs
+    let h := (List.zip a b).countP fun (x, y) => (decide (x ≥ 2^31)) != (decide (y ≥ 2^31))
+    match exactOf rep with
+    | none => some (some "the quantised distance is not a finite number")
+    | some r =>
+      let R := scaled150 r                                    -- value · 2^150
+      let (num, den) : Nat × Nat := match m with
+        | .bqEuclidean => (4 * h, n)
+        | .bqManhattan => (2 * h, n)
+        | _ => (h, 64 * ((n + 63) / 64))
+      if den = 0 then none else
+      -- |R/2^150 − num/den| ≤ 2^-21 · num/den  (three roundings at most), exact when num = 0
+      let lhs : Nat := (R * (den : Int) - (num : Int) * (2 : Int) ^ 150).natAbs * 2 ^ 21
+      let rhs : Nat := num * 2 ^ 150
+      if lhs ≤ rhs then some none
+      else some (some s!"{h} differing signs at dimension {n}: the definition gives {num}/{den}")
+  else
+  match a.mapM exactOf, b.mapM exactOf, exactOf rep with
+  | some ea, some eb, some r =>
+    let sa := ea.map scaled150
+    let sb := eb.map scaled150
+    let R := scaled150 r
+    let pairs := List.zip sa sb
+    match m with
+    | .euclidean =>
+      let E : Int := pairs.foldl (fun acc (x, y) => acc + (x - y) * (x - y)) 0         -- value · 2^300
+      if E > (2 : Int) ^ 420 then none else
+      let tol : Int := E * ((n : Int) + 8) / (2 : Int) ^ 22 + ((n : Int) + 8) * (2 : Int) ^ 152
+      if (R * R - E).natAbs ≤ tol.natAbs then some none
+      else some (some "sqrt(sum (a-b)^2) evaluated exactly is further away than the summation error bound")
+    | .manhattan =>
+      let M : Int := pairs.foldl (fun acc (x, y) => acc + ((x - y).natAbs : Int)) 0    -- value · 2^150
+      if M > (2 : Int) ^ 270 then none else
+      let tol : Int := M * ((n : Int) + 4) / (2 : Int) ^ 23 + ((n : Int) + 4) * 4
+      if (R - M).natAbs ≤ tol.natAbs then some none
+      else some (some "sum |a-b| evaluated exactly is further away than the summation error bound")
+    | .dot =>
+      let (exact, absSum) := exactSum (List.zip ea eb) false
+      if absSum > (2 : Int) ^ 420 then none else
+      if withinTolerance n exact absSum rep then some none
+      else some (some "the inner product evaluated exactly is further away than the summation error bound")
+    | _ =>
+      -- cosine: (1 − cos)/2, 0 when a norm vanishes
+      let A : Int := sa.foldl (fun acc x => acc + x * x) 0
+      let B : Int := sb.foldl (fun acc x => acc + x * x) 0
+      let P : Int := pairs.foldl (fun acc (x, y) => acc + x * y) 0
+      if A = 0 ∨ B = 0 then
+        if rep = 0 ∨ rep = 0x80000000 then some none
+        else some (some "a norm vanishes: the distance must be 0")
+      else if A < (2 : Int) ^ 260 ∨ B < (2 : Int) ^ 260 ∨ A > (2 : Int) ^ 340 ∨ B > (2 : Int) ^ 340 then none
+      else
+        let N : Int := ((A * B).toNat.sqrt : Nat)                                        -- |a||b| · 2^300
+        let C : Int := (2 : Int) ^ 150 - 2 * R                                           -- cos · 2^150
+        let lhs : Nat := (C * N - P * (2 : Int) ^ 150).natAbs * 2 ^ 22
+        let rhs : Nat := (N * (2 : Int) ^ 150 * ((n : Int) + 8)).natAbs + 2 ^ 180
+        if R < 0 ∨ R > (2 : Int) ^ 150 then some (some "the cosine distance is outside [0, 1]")
+        else if lhs ≤ rhs then some none
+        else some (some "(1 - cos)/2 evaluated exactly is further away than the rounding error bound")
+  | _, _, _ => none
+
+
 def kernelModel (h : Host) (name : String) (a b : List Nat) : Option Nat :=
   match name with
   | "dot" => some (dotProduct h a b)
@@ -954,7 +1039,31 @@ def handleKern (d : DState) (toks res : List String) : DState := Id.run do
     let norm := m.normalizedDistance built a.length
     if canonDist built != canonDist ib || canonDist norm != canonDist inn then
       d := d.diff s!"distance {ms} len={a.length}" s!"{hex8 built} {hex8 norm}" s!"{rb} {rn}"
-    -- C11/C12: symmetric in its arguments (model side is proved; this is the implementation's value)
+    -- C11/C12, on the IMPLEMENTATION's value: the metric's definition evaluated exactly, ...
+    let pid := if m.isBq then "C12" else "C11"
+    match definitionOracle m a b inn with
+    | some none => d := { d with nDefChecked := d.nDefChecked + 1 }
+    | some (some msg) =>
+      d := { d with nDefChecked := d.nDefChecked + 1 }
+      d := d.prop pid s!"distance {ms} len={a.length}: reported {rn}: {msg} (a={va} b={vb})"
+    | none => pure ()
+    -- ... symmetry in the arguments (the harness records the swapped pair right after a pair), ...
+    match d.lastDist.find? (fun r => r.1 == ms && r.2.1 == b && r.2.2.1 == a) with
+    | some (_, _, _, pb', pn') =>
+      if canonDist pb' != canonDist ib || canonDist pn' != canonDist inn then
+        d := d.prop pid s!"distance {ms} len={a.length} is not symmetric: d(a,b)=[{rb} {rn}] d(b,a)=[{hex8 pb'} {hex8 pn'}] (a={va} b={vb})"
+    | none => pure ()
+    -- ... and a vector is at distance zero from itself (the three true metrics and the quantised ones; cosine
+    -- within one rounding, DESIGN.md O2)
+    if a == b && (a.all fun x => (exactOf x).isSome) && m != .dot then
+      let zero := inn = 0 ∨ inn = 0x80000000
+      let okSelf := match m with
+        | .cosine => zero ∨ (inn ≤ 0x34800000)          -- 2^-22
+        | _ => zero
+      let overflowed := !(exactOf ib).isSome
+      if !okSelf && !overflowed then
+        d := d.prop pid s!"distance {ms} len={a.length}: a vector is reported at distance {rn} from itself (a={va})"
+    d := { d with lastDist := (ms, a, b, ib, inn) :: d.lastDist.take 13 }
     return d
   | ["bq", v], [packed, it, tv] =>
     let some xs := parseVec? v | return d.diff "bad vec" "" v
@@ -1197,7 +1306,7 @@ def step (d : DState) (line : String) : DState :=
   | [] => d
 
 def statsLine (d : DState) : String :=
-  s!"STAT spec_checks={d.nSpecChecks} records={d.nRecords} snapshots={d.nSnapshots} recovered={d.nRecovered} tolerance_checked={d.nTolChecked} ops={d.nOps} builds={d.nBuilds} builds_replayed={d.nBuildsReplayed} split_searches={d.nSplitSearches} split_searches_recorded={d.nSplitSearchesSeen} builds_loose={d.nBuildsLoose} cancelled_or_failed={d.nCancelled} dumps={d.nDumps} queries={d.nQueries} exact_checked={d.nExact} monotone_pairs={d.nMonotone} self_lookups={d.nSelfLookups} split_nodes_seen={d.nSplits} random_splits_seen={d.nRandomSplits} item_children_seen={d.nItemChildren} routed_pairs={d.nRouted} max_items={d.maxItems} max_depth={d.maxDepth} failures={d.failures}"
+  s!"STAT spec_checks={d.nSpecChecks} records={d.nRecords} snapshots={d.nSnapshots} recovered={d.nRecovered} tolerance_checked={d.nTolChecked} definition_checked={d.nDefChecked} ops={d.nOps} builds={d.nBuilds} builds_replayed={d.nBuildsReplayed} split_searches={d.nSplitSearches} split_searches_recorded={d.nSplitSearchesSeen} builds_loose={d.nBuildsLoose} cancelled_or_failed={d.nCancelled} dumps={d.nDumps} queries={d.nQueries} exact_checked={d.nExact} monotone_pairs={d.nMonotone} self_lookups={d.nSelfLookups} split_nodes_seen={d.nSplits} random_splits_seen={d.nRandomSplits} item_children_seen={d.nItemChildren} routed_pairs={d.nRouted} max_items={d.maxItems} max_depth={d.maxDepth} failures={d.failures}"
 
 end Driver
 end Arroy
